@@ -387,5 +387,5 @@ def replay(ctx, data):
         ots = method.get_modified_ts(G.results_from_json(r["res"]))
         bad = frame_check(its, ots, "any" if r["switched"] else False)
     for sig, detail in bad:
-        print("property fails:", sig, detail)
-    return not bad
+        ctx.oracle_fail(sig, detail, None)
+    return G.replay_verdict(ctx)
